@@ -1024,3 +1024,34 @@ Definition sample_figures_at (c : rcfg) (s : scripts) (lim : option nat) (n base
 Definition spec_figures_at (c : rcfg) (s : scripts) (lim : option nat) (n base : nat) : figures :=
   let sh := eff_shape (r_entry c) (r_shape c) in
   tally_of (timed_ops (script_fn_lim (run_vis c) s lim base) (path_of sh) (by_ref (r_entry c)) (r_udrop c) n).
+
+(** * Which input counters are in force: the sequence of counter calls on the bencher
+
+    [Bencher::input_counter(f)] / [count_inputs_as::<K>()] register a counter of
+    kind [K] computed from each input ([set_input_counter]: replaces whatever was
+    there for [K]); [Bencher::counter(c)] sets a constant of [c]'s kind
+    ([set_counter]: replaces whatever was there for that kind, including an
+    input-based counter).  Kinds are independent: a call touches its own kind
+    only.  [logged]: the closure is user code (visible in the event log);
+    [count_inputs_as] uses a closure of the crate itself. *)
+Inductive ccall := CInput (k : ckind) (logged : bool) | CConst (k : ckind).
+Inductive kstat := KNone | KConst | KInput (logged : bool).
+
+Definition kind_eqb (a b : ckind) : bool :=
+  match a, b with
+  | Bytes, Bytes | Chars, Chars | Cycles, Cycles | Items, Items => true
+  | _, _ => false
+  end.
+
+Definition ccall_kind (c : ccall) : ckind := match c with CInput k _ | CConst k => k end.
+Definition ccall_stat (c : ccall) : kstat := match c with CInput _ l => KInput l | CConst _ => KConst end.
+
+Definition cc_step (st : ckind -> kstat) (c : ccall) : ckind -> kstat :=
+  fun k => if kind_eqb k (ccall_kind c) then ccall_stat c else st k.
+
+Definition resolve (l : list ccall) : ckind -> kstat := fold_left cc_step l (fun _ => KNone).
+
+(** The kinds every generated input must be shown to; [only_logged]: those whose closure is user code. *)
+Definition counters_in_force (st : ckind -> kstat) (only_logged : bool) : counters :=
+  let on k := match st k with KInput l => if only_logged then l else true | _ => false end in
+  mkCs (on Bytes) (on Chars) (on Cycles) (on Items).
